@@ -304,7 +304,9 @@ Why(C, X, e) ==
       RECURSIVE UnderForever(_)
       UnderForever(x) == x >= 2 /\ x <= C.n /\ (C.forever[x] \/ UnderForever(C.parent[x]))
       fsuffix == IF UnderForever(n) THEN "-under-forever" ELSE ""
-      byCause == (CASE pcause = "critical" -> "parent-aborted-critical"
+      \* the critical failure came out of a critical nested scheduler (C10: it propagates)
+      nsuffix == IF \E k \in Kids(C, p) : IsSched(C, k) /\ C.crit[k] /\ X.st[k] = "exc" THEN "-by-nested" ELSE ""
+      byCause == (CASE pcause = "critical" -> "parent-aborted-critical" \o nsuffix
                     [] pcause = "timeout" -> "parent-aborted-timeout"
                     [] pcause = "success" -> "parent-aborted-success"
                     [] pcause = "cancelled" -> "parent-aborted-cancelled"
